@@ -48,6 +48,9 @@ def check_C03(report):
 def check_C13(report):
     n, length = _sizes(report, (240, 14), (4000, 25))
     seq.model_check(report, 3, 5, ['Inv_PackNumbering'], ['Act_AppendOnly', 'Act_OnlyLastPackGrows'])
+    # the same with lock files left by killed writers as environment steps
+    seq.model_check(report, 3, 4, ['Inv_PackNumbering', 'Refines', 'Inv_IndexOK'], ['Act_AppendOnly', 'Act_OnlyLastPackGrows'],
+                    config='MC_SeqLocks')
     seq.run_histories(report, 'C13', n, length, ['C13'], sim=(80 if report.tier == 'quick' else 1200, 12))
     report.assumptions += ASSUME
 
